@@ -4,6 +4,7 @@ import (
 	"fmt"
 	"go/token"
 	"go/types"
+	"os"
 
 	"golang.org/x/tools/go/ssa"
 )
@@ -13,7 +14,7 @@ func init() { register("C13", checkC13) }
 func checkC13(c *Ctx) {
 	p := c.P
 	c.Level = "other"
-	c.Explain = "C13 decided on the recording callback and its wrappers: the tempo event built from the recording tempo is added before listening starts; the callback is interpreted abstractly over all 256 first bytes x 5 length classes (incl. the empty message): a message is stored only if it is a channel message or a complete F0 sysex (everything the writer can frame), every channel message is stored exactly once, unchanged, with delta = Ticks(tempo, (arrival - previous arrival) ms) where the previous arrival only advances when a message is stored; the file-level stop function stops listening, closes the track and adds it. Not decided: 'to within one tick' (float rounding; formula under C11), the one-second sleep, messages in flight at stop."
+	c.Explain = "C13 decided by a recording simulation: Track.RecordFrom itself is interpreted on an empty track with an arbitrary port, midi.ListenTo replaced by 'remember the receiver function' and MetaTempo/Ticks uninterpreted. When listening starts the track holds exactly (delta 0, MetaTempo(recording tempo)). The remembered receiver (closure or method value, no private state is preset or inspected) is then called three times per cell — a channel message at a1, the cell's message (256 first bytes x 5 length classes incl. the empty message) at a2 >= a1, a channel message at a3 >= a2: a message is stored only if it is a channel message or a complete F0 sysex (everything the writer can frame), once, unchanged and in order, with delta = Ticks(tempo, time since the previous STORED message); a message delivered after the track was closed is not stored behind the end of track. Ticks is Round(d[ns]*resolution*bpm/6e10) without integer narrowing; the file-level stop function stops listening, closes the track and adds it. Not decided: 'to within one tick' (float rounding; formula under C11), the one-second sleep, messages in flight at stop."
 	c.Trusted = []string{"go/ssa", "E-abs", "the class table of what ListenTo can deliver (C04/C06)", "Ticks treated as uninterpreted (its formula: C11.1)"}
 	c.Rule("C13.1", "tempo first: the tempo meta event built from the recording tempo is added before listening starts", 1)
 	c.Rule("C13.2", "only file-legal messages are stored: the append is taken only for channel messages and complete F0 sysex; never for real-time, system-common, stray or empty messages", 1)
@@ -43,201 +44,299 @@ func checkC13(c *Ctx) {
 		return
 	}
 	c.Fn(FuncName(rec))
-	// ---- C13.1
-	var addCall, listenCall ssa.Instruction
-	okTempoArg := false
-	for _, call := range calls(rec) {
-		f := call.Common().StaticCallee()
-		if f == nil {
-			continue
-		}
-		switch f.Name() {
-		case "ListenTo":
-			listenCall = call
-		case "Add":
-			addCall = call
-		case "MetaTempo":
-			for _, a := range call.Common().Args {
-				if l, ok := a.(*ssa.UnOp); ok {
-					a = l.X
-				}
-				// the recording tempo: the float64 parameter of RecordFrom (possibly spilled into a cell because the callback captures it)
-				if prm, ok := a.(*ssa.Parameter); ok && prm.Type().String() == "float64" {
-					okTempoArg = true
-				}
-				if al, ok := a.(*ssa.Alloc); ok {
-					for _, u := range liveRefs(al) {
-						if st, ok := u.(*ssa.Store); ok && st.Addr == ssa.Value(al) {
-							if prm, ok := st.Val.(*ssa.Parameter); ok && prm.Type().String() == "float64" {
-								okTempoArg = true
-							}
-						}
-					}
-				}
-			}
-		}
-	}
-	ok1 := addCall != nil && listenCall != nil && instrDominates(addCall, listenCall) && okTempoArg
-	c.Check(ok1, "C13.1", "tempo event before listening", p.Pos(rec.Pos()), "Add(0, MetaTempo(bpm)) dominates ListenTo", fmt.Sprintf("the tempo event is not added before listening starts (add=%v listen=%v tempo from bpm=%v)", addCall != nil, listenCall != nil, okTempoArg))
-
-	// ---- callback
-	var cb *ssa.Function
-	for _, af := range rec.AnonFuncs {
-		if af.Signature.Params().Len() == 2 && namedTypeName(af.Signature.Params().At(0).Type()) == "Message" {
-			cb = af
-		}
-	}
-	if cb == nil {
-		c.Unk("C13.2", "recording callback", "-", "not found")
+	// ---- C13.1 .. C13.4: recording simulation. Track.RecordFrom itself is interpreted on an empty track with an arbitrary
+	// in port; midi.ListenTo is replaced by "remember the receiver function, return a stop function" and MetaTempo / Ticks
+	// are uninterpreted. The remembered receiver — closure, method value, whatever the code hands over — is then called
+	// three times: a channel message at time a1, the cell's message at a2 >= a1, a channel message at a3 >= a2. What the
+	// track holds afterwards is compared with the statement. No private state is preset or inspected.
+	listenTo := p.Func("", "ListenTo")
+	metaTempo := p.Func("smf", "MetaTempo")
+	if listenTo == nil || metaTempo == nil {
+		c.Unk("C13.1", "midi.ListenTo / smf.MetaTempo", "-", "not found")
 		return
 	}
-	c.Fn(FuncName(cb))
-	badLegal, badDelta, badBytes := "", "", ""
+	bad1, badLegal, badDelta, badBytes := "", "", "", ""
 	cells := 0
+	evT := p.namedType("smf", "Event")
 	for b0 := 0; b0 < 256; b0++ {
-		for _, lc := range []int{0, 1, 2, 3, 9} {
-			if lc == 0 && b0 != 0 {
+		for _, lc := range []int{0, 1, 2, 3, 9, -1} {
+			if (lc == 0 && b0 != 0) || (lc == -1 && b0 != 0x93) {
 				continue
+			}
+			// lc == -1: instead of a second message the track is closed (Track.Close) while the port is still listened to;
+			// the channel message delivered afterwards must not end up behind the end-of-track event
+			closeCell := lc == -1
+			if closeCell {
+				lc = 3
 			}
 			cells++
 			ex := NewExec(p)
 			var durs []string
+			var recv *FuncV
+			tempoFrom := ""
+			var tempoMsg *SliceV
+			trackLenAtListen := -1
+			var trackObj int
+			k8 := func(v int64) Val { return mkConst(v, 8, false) }
 			ex.CallHook = func(ex *Exec, st *State, fr *Frame, call ssa.CallInstruction, callee *ssa.Function, args []Val) ([]callRes, bool) {
-				if callee != ticksFn {
-					return nil, false
+				switch callee {
+				case ticksFn:
+					d := "?"
+					if iv, ok := args[2].(*IntV); ok {
+						d = st.ident(iv)
+					}
+					b := "?"
+					if f, ok := args[1].(*FloatV); ok {
+						b = f.Expr
+					}
+					durs = append(durs, b+"|"+d)
+					s := ex.syms.Get("Ticks("+b+","+d+")", 32, false)
+					return []callRes{{st: st, ret: mkSym(s)}}, true
+				case metaTempo:
+					if f, ok := args[0].(*FloatV); ok {
+						tempoFrom = f.Expr
+					}
+					tempoMsg = ex.mkBytes(st, "tempo", []Val{k8(0xFF), k8(0x51), k8(3), ex.byteSym("t0"), ex.byteSym("t1"), ex.byteSym("t2")}, false, 0)
+					return []callRes{{st: st, ret: tempoMsg}}, true
+				case listenTo:
+					// remembered per path (each path has its own heap): an event of the state carries the receiver
+					var rf *FuncV
+					if len(args) >= 2 {
+						rf, _ = args[1].(*FuncV)
+					}
+					n := -1
+					if tsl, ok := st.heap[trackObj].(*SliceV); ok {
+						if evs, okE := ex.sliceElems(st, tsl); okE {
+							n = len(evs)
+						}
+					}
+					if rf != nil {
+						st.Events = append(st.Events, Event{Kind: "sim:listen-start", Args: []Val{rf, mkConst(int64(n), 64, true)}})
+					}
+					return []callRes{{st: st, ret: &TupleV{Vs: []Val{&FuncV{Ext: "stop"}, nilErr()}}}}, true
 				}
-				d := "?"
-				if iv, ok := args[2].(*IntV); ok {
-					d = st.ident(iv)
-				}
-				b := "?"
-				if f, ok := args[1].(*FloatV); ok {
-					b = f.Expr
-				}
-				durs = append(durs, b+"|"+d)
-				s := ex.syms.Get("Ticks("+b+","+d+")", 32, false)
-				return []callRes{{st: st, ret: mkSym(s)}}, true
+				return nil, false
 			}
 			st := ex.NewState()
-			// the track so far: the tempo event
-			evT := p.namedType("smf", "Event")
-			tev := ex.zeroOf(evT).(*StructV)
-			k8 := func(v int64) Val { return mkConst(v, 8, false) }
-			tev.Fields[fieldIndex(tev.T, "Message")] = ex.mkBytes(st, "tempo", []Val{k8(0xFF), k8(0x51), k8(3), ex.byteSym("t0"), ex.byteSym("t1"), ex.byteSym("t2")}, false, 0)
-			aid := ex.newObj(st, &ArrayV{Elem: evT, Segs: []Seg{{Elems: []Val{tev}}}}, nil)
-			one := mkConst(1, 64, true)
-			trackObj := ex.newObj(st, &SliceV{Obj: aid, Off: mkConst(0, 64, true), Len: one, Cap: one}, trackT)
-			msg := mkCellMsg(ex, st, c08cell{lc, b0, -1})
-			if lc == 0 {
-				msg = ex.mkBytes(st, "m", nil, false, 0)
-			}
-			absms := mkSym(ex.syms.Get("absms", 32, true))
-			st.refineSym(absms.T.Syms[0], 0, 1<<30)
-			prev := mkSym(ex.syms.Get("prev", 32, true))
-			st.refineSym(prev.T.Syms[0], 0, 1<<30)
-			st.Assume("<=", prev, absms)
-			var prevCell *PtrV
-			var binds []Val
-			for _, fv := range cb.FreeVars {
-				et := fv.Type()
-				isPtr := false
-				if pt, ok := et.(*types.Pointer); ok {
-					et = pt.Elem()
-					isPtr = true
-				}
-				var v Val
+			zero := mkConst(0, 64, true)
+			trackObj = ex.newObj(st, &SliceV{Nil: true, Off: zero, Len: zero, Cap: zero}, trackT)
+			q := mkSym(ex.syms.Get("q", 16, false))
+			st.refineSym(q.T.Syms[0], 24, 15360)
+			var args []Val
+			for _, prm := range rec.Params {
 				switch {
-				case types.Identical(et, types.NewPointer(trackT)):
-					v = &PtrV{Obj: trackObj}
-				case types.Identical(et, trackT):
-					// captured directly as *Track
-					binds = append(binds, &PtrV{Obj: trackObj})
-					continue
-				case types.Identical(et, mtT):
-					q := mkSym(ex.syms.Get("q", 16, false))
-					st.refineSym(q.T.Syms[0], 24, 15360)
-					v = q
-				case et.String() == "float64":
-					v = &FloatV{Expr: "bpm", Mono: monoOfAtom("bpm")}
-				case et.String() == "int32":
-					v = prev
+				case types.Identical(prm.Type(), types.NewPointer(trackT)):
+					args = append(args, &PtrV{Obj: trackObj})
+				case types.Identical(prm.Type(), mtT):
+					args = append(args, q)
+				case prm.Type().String() == "float64":
+					args = append(args, &FloatV{Expr: "bpm", Mono: monoOfAtom("bpm")})
 				default:
-					v = ex.topArg(st, et, fv.Name())
-				}
-				if isPtr {
-					id := ex.newObj(st, v, et)
-					pc := &PtrV{Obj: id}
-					if et.String() == "int32" {
-						prevCell = pc
-					}
-					binds = append(binds, pc)
-				} else {
-					binds = append(binds, v)
+					args = append(args, &IfaceV{Unk: true, NonNil: true})
 				}
 			}
-			fr := &Frame{fn: cb, regs: map[ssa.Value]Val{}, visits: map[*ssa.BasicBlock]int{}, widened: map[*ssa.BasicBlock]bool{}, phiHist: map[*ssa.Phi]Val{}, kept: map[*ssa.Phi]keptInv{}}
-			res := ex.callValue(fr, st, &FuncV{Fn: cb, Bindings: binds}, []Val{msg, absms}, nil, nil)
+			var started []*State
+			for _, o := range ex.Call(st, rec, args, nil) {
+				if o.Panic {
+					bad1 = "Track.RecordFrom may panic: " + o.Msg
+					continue
+				}
+				if ev, _ := o.Ret[len(o.Ret)-1].(*IfaceV); ev == nil || !ev.Nil {
+					continue // the port could not be opened
+				}
+				started = append(started, o.St)
+			}
+			if len(started) == 0 {
+				bad1 = "Track.RecordFrom does not start listening on the representative port"
+				continue
+			}
+			msg0 := func(st *State, name string) *SliceV {
+				k, v := ex.syms.Get(name+"k", 8, false), ex.syms.Get(name+"v", 8, false)
+				st.refineSym(k, 0, 127)
+				st.refineSym(v, 0, 127)
+				return ex.mkBytes(st, name, []Val{k8(0x93), mkSym(k), mkSym(v)}, false, 0)
+			}
 			isChan := lc > 0 && b0 >= 0x80 && b0 <= 0xEF
 			legal := isChan || (lc > 0 && b0 == 0xF0)
-			for _, r := range res {
-				if r.panic {
-					badLegal = fmt.Sprintf("first byte %02X length class %d: callback panics: %s", b0, lc, r.msg)
-					continue
-				}
-				tsl, _ := r.st.heap[trackObj].(*SliceV)
-				evs, okE := ex.sliceElems(r.st, tsl)
-				if !okE {
-					badLegal = "track content lost"
-					continue
-				}
-				stored := len(evs) - 1
-				if stored > 0 && !legal {
-					if badLegal == "" {
-						what := fmt.Sprintf("a message starting with %02X (length class %d)", b0, lc)
-						if lc == 0 {
-							what = "an empty message"
+			for _, s0 := range started {
+				recv, trackLenAtListen = nil, -1
+				for _, e := range s0.Events {
+					if e.Kind == "sim:listen-start" && len(e.Args) == 2 {
+						recv, _ = e.Args[0].(*FuncV)
+						if n, ok := e.Args[1].(*IntV); ok {
+							trackLenAtListen = int(n.T.C)
 						}
-						badLegal = what + " is appended to the recorded track; the SMF writer frames only channel messages and F0/F7 sysex, so the written track is not a valid file"
 					}
+				}
+				if recv == nil || recv.Fn == nil {
+					bad1 = "Track.RecordFrom returns without error but has not handed a receiver function to ListenTo"
 					continue
 				}
-				if isChan && stored != 1 {
-					badBytes = fmt.Sprintf("channel message %02X is stored %d times", b0, stored)
-					continue
-				}
-				var pv Val
-				if prevCell != nil {
-					pv = r.st.heap[prevCell.Obj]
-				}
-				pi, _ := pv.(*IntV)
-				if stored == 0 {
-					if pi == nil || !r.st.sameInt(pi, prev) {
-						badDelta = fmt.Sprintf("a dropped message (first byte %02X) advances the previous-arrival time stamp: the next stored delta is measured from a message that is not in the file", b0)
+				// C13.1: when listening starts the track holds exactly the tempo event built from the recording tempo
+				if tsl, ok := s0.heap[trackObj].(*SliceV); ok {
+					evs, okE := ex.sliceElems(s0, tsl)
+					okT := okE && len(evs) == 1 && trackLenAtListen == 1 && tempoFrom == "bpm" && tempoMsg != nil
+					if okT {
+						ev, _ := evs[0].(*StructV)
+						ms, _ := ev.Fields[fieldIndex(ev.T, "Message")].(*SliceV)
+						dl, _ := ev.Fields[fieldIndex(ev.T, "Delta")].(*IntV)
+						me, okM := ex.sliceSegs(s0, ms)
+						we := []Seg{{Elems: []Val{k8(0xFF), k8(0x51), k8(3), ex.byteSym("t0"), ex.byteSym("t1"), ex.byteSym("t2")}}} // what the MetaTempo stand-in returned
+						if os.Getenv("ABSDEBUG") != "" && b0 == 0 {
+							fmt.Fprintf(os.Stderr, "C13.1 debug: ms=%v okM=%v me=%v we=%v dl=%v\n", ms != nil, okM, me, we, valString(dl))
+						}
+						okT = ms != nil && okM && segsEqual(s0.dropEmptyRuns(me), s0.dropEmptyRuns(we), s0.sameVal) && dl != nil && s0.sameInt(dl, mkConst(0, 32, false))
 					}
+					if !okT {
+						bad1 = fmt.Sprintf("when listening starts the track does not hold exactly one event (delta 0, MetaTempo(recording tempo)): events=%d at the time of ListenTo=%d, tempo argument %q", len(evs), trackLenAtListen, tempoFrom)
+						continue
+					}
+				}
+				a1 := mkSym(ex.syms.Get("a1", 32, true))
+				a2 := mkSym(ex.syms.Get("a2", 32, true))
+				a3 := mkSym(ex.syms.Get("a3", 32, true))
+				for _, a := range []*IntV{a1, a2, a3} {
+					s0.refineSym(a.T.Syms[0], 0, 1<<30)
+				}
+				s0.Assume("<=", a1, a2)
+				s0.Assume("<=", a2, a3)
+				s0.Assume("<=", a1, a3)
+				m1, m3 := msg0(s0, "first"), msg0(s0, "third")
+				msg := mkCellMsg(ex, s0, c08cell{lc, b0, -1})
+				if lc == 0 {
+					msg = ex.mkBytes(s0, "m", nil, false, 0)
+				}
+				fr := &Frame{fn: recv.Fn, regs: map[ssa.Value]Val{}, visits: map[*ssa.BasicBlock]int{}, widened: map[*ssa.BasicBlock]bool{}, phiHist: map[*ssa.Phi]Val{}, kept: map[*ssa.Phi]keptInv{}}
+				states := []*State{s0}
+				panicked := false
+				for si, step := range []struct {
+					m *SliceV
+					t *IntV
+				}{{m1, a1}, {msg, a2}, {m3, a3}} {
+					var next []*State
+					for _, s1 := range states {
+						if closeCell && si == 1 {
+							closeM := p.MethodOf(types.NewPointer(trackT), "Close")
+							if closeM == nil {
+								badBytes = "Track.Close not found"
+								continue
+							}
+							for _, o := range ex.Call(s1, closeM, []Val{&PtrV{Obj: trackObj}, mkConst(0, 32, false)}, nil) {
+								if !o.Panic {
+									next = append(next, o.St)
+								}
+							}
+							continue
+						}
+						for _, r := range ex.callValue(fr, s1, recv, []Val{step.m, step.t}, nil, nil) {
+							if r.panic {
+								badLegal = fmt.Sprintf("first byte %02X length class %d: the receiver panics: %s", b0, lc, r.msg)
+								panicked = true
+								continue
+							}
+							next = append(next, r.st)
+						}
+					}
+					states = next
+				}
+				if panicked {
 					continue
 				}
-				ev, _ := evs[1].(*StructV)
-				ms, _ := ev.Fields[fieldIndex(ev.T, "Message")].(*SliceV)
-				me, okM := ex.sliceSegs(r.st, ms)
-				we, _ := ex.sliceSegs(r.st, msg)
-				if !okM || !segsEqual(r.st.dropEmptyRuns(me), r.st.dropEmptyRuns(we), r.st.sameVal) {
-					badBytes = fmt.Sprintf("first byte %02X: the stored bytes differ from the delivered message", b0)
-				}
-				dl, _ := ev.Fields[fieldIndex(ev.T, "Delta")].(*IntV)
-				wantDur := r.st.Arith(token.MUL, r.st.Convert(r.st.Arith(token.SUB, absms, prev, ""), 64, true), mkConst(1000000, 64, true), "")
-				want := ex.syms.byName["Ticks(bpm,"+r.st.ident(wantDur)+")"]
-				if dl == nil || want == nil || !r.st.sameInt(dl, mkSym(want)) {
-					badDelta = fmt.Sprintf("first byte %02X: delta %s is not Ticks(bpm, (arrival - previous arrival) in ms) [Ticks calls: %v]", b0, valString(ev.Fields[fieldIndex(ev.T, "Delta")]), durs)
-				}
-				if pi == nil || !r.st.sameInt(pi, absms) {
-					badDelta = "the previous-arrival time stamp is not advanced to the arrival of the stored message"
+				for _, s3 := range states {
+					tsl, _ := s3.heap[trackObj].(*SliceV)
+					evs, okE := ex.sliceElems(s3, tsl)
+					if closeCell {
+						okEnd := okE && len(evs) >= 1
+						if okEnd {
+							ev, _ := evs[len(evs)-1].(*StructV)
+							var ms *SliceV
+							if ev != nil {
+								ms, _ = ev.Fields[fieldIndex(ev.T, "Message")].(*SliceV)
+							}
+							me, okM := ex.sliceSegs(s3, ms)
+							okEnd = ms != nil && okM && segsEqual(s3.dropEmptyRuns(me), []Seg{{Elems: []Val{k8(0xFF), k8(0x2F), k8(0)}}}, s3.sameVal)
+						}
+						if !okEnd {
+							badBytes = fmt.Sprintf("a channel message delivered after the track was closed (while the port is still listened to) is stored behind the end-of-track event (%d events): the written track is not a valid track chunk", len(evs))
+						}
+						continue
+					}
+					if !okE || len(evs) < 3 {
+						badBytes = fmt.Sprintf("first byte %02X length class %d: after three deliveries (channel message, the cell's message, channel message) the track holds %d events; the two channel messages alone make 3 with the tempo event", b0, lc, len(evs))
+						continue
+					}
+					stored := len(evs) - 3
+					if stored > 0 && !legal {
+						if badLegal == "" {
+							what := fmt.Sprintf("a message starting with %02X (length class %d)", b0, lc)
+							if lc == 0 {
+								what = "an empty message"
+							}
+							badLegal = what + " is appended to the recorded track; the SMF writer frames only channel messages and F0/F7 sysex, so the written track is not a valid file"
+						}
+						continue
+					}
+					if stored > 1 || (isChan && stored != 1) {
+						badBytes = fmt.Sprintf("message %02X (length class %d) is stored %d times", b0, lc, stored)
+						continue
+					}
+					evAt := func(i int) (*SliceV, *IntV) {
+						ev, _ := evs[i].(*StructV)
+						if ev == nil {
+							return nil, nil
+						}
+						ms, _ := ev.Fields[fieldIndex(ev.T, "Message")].(*SliceV)
+						dl, _ := ev.Fields[fieldIndex(ev.T, "Delta")].(*IntV)
+						return ms, dl
+					}
+					same := func(ms, want *SliceV) bool {
+						me, okM := ex.sliceSegs(s3, ms)
+						we, _ := ex.sliceSegs(s3, want)
+						return ms != nil && okM && segsEqual(s3.dropEmptyRuns(me), s3.dropEmptyRuns(we), s3.sameVal)
+					}
+					ticksOf := func(from, to *IntV) *Sym {
+						d := s3.Arith(token.MUL, s3.Convert(s3.Arith(token.SUB, to, from, ""), 64, true), mkConst(1000000, 64, true), "")
+						return ex.syms.byName["Ticks(bpm,"+s3.ident(d)+")"]
+					}
+					ms1, _ := evAt(1)
+					if !same(ms1, m1) {
+						badBytes = "the first delivered channel message is not stored unchanged as the event after the tempo event"
+						continue
+					}
+					prev := a1
+					last := 2
+					if stored == 1 {
+						ms2, dl2 := evAt(2)
+						if !same(ms2, msg) {
+							badBytes = fmt.Sprintf("first byte %02X: the stored bytes differ from the delivered message", b0)
+						}
+						if w := ticksOf(a1, a2); dl2 == nil || w == nil || !s3.sameInt(dl2, mkSym(w)) {
+							badDelta = fmt.Sprintf("first byte %02X: delta %s is not Ticks(bpm, (arrival - previous arrival) in ms) [Ticks calls: %v]", b0, valString(dl2), durs)
+						}
+						prev = a2
+						last = 3
+					}
+					ms3, dl3 := evAt(last)
+					if !same(ms3, m3) {
+						badBytes = "the channel message delivered after the cell's message is not stored unchanged, in order"
+						continue
+					}
+					if w := ticksOf(prev, a3); dl3 == nil || w == nil || !s3.sameInt(dl3, mkSym(w)) {
+						if stored == 0 {
+							badDelta = fmt.Sprintf("after a dropped message (first byte %02X, length class %d) the next stored delta is %s, not Ticks(bpm, time since the previous STORED message): a dropped message advances the previous-arrival time stamp, or the delta is measured from somewhere else [Ticks calls: %v]", b0, lc, valString(dl3), durs)
+						} else {
+							badDelta = fmt.Sprintf("the delta of the message after a stored one (first byte %02X) is %s, not Ticks(bpm, time since that message) [Ticks calls: %v]", b0, valString(dl3), durs)
+						}
+					}
 				}
 			}
 		}
 	}
-	c.Check(badLegal == "", "C13.2", "only channel / sysex messages are stored", p.Pos(cb.Pos()), fmt.Sprintf("%d cells: append only for 80-EF and F0", cells), badLegal)
-	c.Check(badDelta == "", "C13.3", "delta = Ticks(bpm, arrival difference); previous arrival follows stored messages only", p.Pos(cb.Pos()), "affine provenance of the Ticks argument and of the stored previous arrival", badDelta)
-	c.Check(badBytes == "", "C13.4", "stored bytes = delivered message, once", p.Pos(cb.Pos()), "identity of the message segments; one append per channel message", badBytes)
+	c.Check(bad1 == "", "C13.1", "tempo event before listening", p.Pos(rec.Pos()), "recording simulation: when ListenTo is reached the track holds exactly (delta 0, MetaTempo(bpm))", bad1)
+	c.Check(badLegal == "", "C13.2", "only channel / sysex messages are stored", p.Pos(rec.Pos()), fmt.Sprintf("%d cells (first byte x length class), three deliveries each: append only for 80-EF and F0", cells), badLegal)
+	c.Check(badDelta == "", "C13.3", "delta = Ticks(bpm, arrival difference); previous arrival follows stored messages only", p.Pos(rec.Pos()), "deltas of the second and third delivery against Ticks(bpm, difference to the previous stored arrival)", badDelta)
+	c.Check(badBytes == "", "C13.4", "stored bytes = delivered message, once", p.Pos(rec.Pos()), "identity of the message segments; one append per channel message, in order", badBytes)
+	_ = evT
 
 	ticksFormulaRule(c, "C13.6")
 	// ---- C13.5
